@@ -1,8 +1,7 @@
-(* Properties/C09.v — pruning preserves the distribution (proved) and yields a normal form (checked
-   per run on the model's and the implementation's outputs; general NF theorem not proved). *)
+(* Properties/C09.v — pruning preserves the distribution, yields a normal form, and is idempotent. *)
 From Coq Require Import List Arith ZArith Ring Bool QArith Qcanon.
 From DV Require Import Model.Core Model.Leaves Model.QcInst Model.Prune Model.PruneRun
-  Proofs.CoreFacts Proofs.PruneFacts Proofs.PruneExamples.
+  Proofs.CoreFacts Proofs.PruneFacts Proofs.PruneNF Proofs.PruneExamples.
 Import ListNotations.
 Local Open Scope nat_scope.
 
@@ -32,14 +31,36 @@ Section C09.
     intros t Hw Hn. destruct (prune_inv T t0 t1 tadd tmul SRth leaf leaf_val t Hw Hn) as [H1 H2 H3 H4 _].
     repeat split; assumption.
   Qed.
+
+  (* normal form: EVERY node of the rebuilt table (hence every reachable one) has no single child, a
+     sum has pairwise distinct children none of which is a sum, a product has no product child —
+     for every children-first table whose leaves have no children, sums one weight per child and
+     products at least one child (what check_spn guarantees) *)
+  Theorem C09_normal_form : forall t : table T leaf,
+      wf T leaf t -> Forall (shaped T leaf) t -> Forall (prod_nonempty T leaf) t ->
+      NF T leaf (fst (pst t)) /\ wf T leaf (fst (pst t)).
+  Proof.
+    intros t Hw Hs Hp. destruct (prune_nf T tadd tmul leaf t Hw Hs Hp) as [_ _ H3 H4 _]. split; assumption.
+  Qed.
+
+  (* pruning a normal form changes nothing: the rebuild returns the same table and the identity map *)
+  Theorem C09_nf_fixpoint : forall t : table T leaf, wf T leaf t ->
+      (forall j, j < length t -> nfP T leaf t (nth j t (dummy_node T leaf))) ->
+      pst t = (t, seq 0 (length t)).
+  Proof. exact (prune_nf_fixpoint T t0 tadd tmul leaf). Qed.
+
+  (* hence pruning again changes nothing *)
+  Theorem C09_idempotent : forall t : table T leaf,
+      wf T leaf t -> Forall (shaped T leaf) t -> Forall (prod_nonempty T leaf) t ->
+      pst (fst (pst t)) = (fst (pst t), seq 0 (length (fst (pst t)))).
+  Proof. exact (prune_idempotent T t0 tadd tmul leaf). Qed.
 End C09.
 
-(* normal form: only the pinned defect's refutation and the repaired behaviour on the same input
-   are theorems; the general statement is C09_nf_partial (checked per case, see harness/c09.py) *)
+(* the pinned defect (a sum left with one distinct child was kept) and the repaired behaviour on the same input *)
 Theorem C09_pinned_nf_refuted :
   nf_b Qc qleaf (fst (qprune_pinned pr_t)) (snd (qprune_pinned pr_t)) = false /\ nreach (qprune_pinned pr_t) = 4.
 Proof. exact prune_pinned_nf_refuted. Qed.
-Theorem C09_nf_partial_example :
+Theorem C09_nf_example :
   nf_b Qc qleaf (fst (qprune pr_t)) (snd (qprune pr_t)) = true /\
   nreach (qprune pr_t) = 3 /\ nreach (reprune (qprune pr_t)) = 3.
 Proof. exact pr_fixed_nf. Qed.
@@ -47,4 +68,7 @@ Proof. exact pr_fixed_nf. Qed.
 Print Assumptions C09_preserves.
 Print Assumptions C09_output_wellformed.
 Print Assumptions C09_pinned_nf_refuted.
-Print Assumptions C09_nf_partial_example.
+Print Assumptions C09_nf_example.
+Print Assumptions C09_normal_form.
+Print Assumptions C09_nf_fixpoint.
+Print Assumptions C09_idempotent.
